@@ -155,6 +155,8 @@ pub enum Op {
     SessionText { text: TextSpec },
     /// session.set_language(lang) on the client's live session (its variables must survive)
     SessionLang { lang: String },
+    /// calc.format_result(&session, ast) for every value of the session's last result
+    SessionFormat,
     /// calc.execute_session(&session) once more WITHOUT a new text (judged only when the
     /// session's current text has exactly one line: the line is evaluated again, at the
     /// instant of this event)
@@ -222,6 +224,7 @@ impl Trace {
                 Op::SessionNew { .. } => "n".into(),
                 Op::SessionText { .. } => "t".into(),
                 Op::SessionRerun => "r".into(),
+                Op::SessionFormat => "f".into(),
                 Op::SessionLang { .. } => "l".into(),
                 Op::Checkpoint { .. } => "c".into(),
                 Op::Admin(a) => a.kind().into(),
